@@ -94,7 +94,11 @@ def run_case(kind, f, vs, data, declare_extra, supply_extra, perm):
             n = len(data[vs[0]])
             out = None
             for i in range(n):
-                out = spec.update(i, [(v, data[v][i]) for v in supplied])
+                # the list of inputs may change from one update to the next: order, and whether the surplus variable is listed
+                step = permute(supplied, perm + i) if perm else list(supplied)
+                if supply_extra and perm and i % 2 == 1:
+                    step = [v for v in step if v != 'extra_v']
+                out = spec.update(i, [(v, data[v][i]) for v in step])
         elif kind == 'ct_off':
             sig = to_time({v: data[v] for v in supplied}, Q)
             out = spec.evaluate(*[[v, sig[v]] for v in supplied])
